@@ -89,11 +89,7 @@ class TwoEndedLink(link.Link):
         all is well.  Except the access to a private method... but it seems the
         least bad option, IMO.
         """
-        v2 = self.v2
-        self.unlink_from(self.v1)
-        self._vertices = []
-        self.add_vertex(new)
-        self._vertices.append(v2)
+        self._replace_end(0, new)
 
     @property
     def v2(self) -> Vertex:
@@ -119,10 +115,29 @@ class TwoEndedLink(link.Link):
         For a brief on why this exists, see
         :py:meth:`~edgegraph.structure.TwoEndedLink._set_v1`.
         """
-        v1 = self.v1
-        self.unlink_from(self.v2)
-        self._vertices = [v1]
-        self.add_vertex(new)
+        self._replace_end(1, new)
+
+    def _replace_end(self, idx: int, new: Vertex):
+        """
+        Replace the end at position ``idx`` (0 for v1, 1 for v2) with ``new``.
+
+        The end is replaced in place: the other end (and anything else this
+        link lists) is left alone, the previous vertex is only detached if it
+        is no longer an end of this link, and the new vertex is attached if it
+        does not know this link yet.
+
+        :raises IndexError: if this link does not have both of its ends
+           anymore; nothing is changed in that case.
+        """
+        # both ends must exist before anything is touched
+        old = self.vertices[idx]
+        _ = self.vertices[1]
+
+        self._vertices[idx] = new
+        if (old is not None) and (old not in self._vertices):
+            old.remove_from_link(self)
+        if new is not None:
+            new.add_to_link(self)
 
     def other(self, end: Vertex) -> Vertex | None:
         """
